@@ -67,15 +67,31 @@ def _alias(teams, alias):
     return teams
 
 
-def unit_btp_btf(sizes, gamma_mode, alias=None):
+def unit_btp_btf(sizes, gamma_mode, alias=None, generic=False):
+    """generic: sizes = (1, 1), both teams of symbolic size (pyvc/teams.py)"""
+    try:
+        return _unit_btp_btf(sizes, gamma_mode, alias, generic)
+    except Exception as e:  # noqa: BLE001
+        from ..symrt import UncutLoop
+        if generic and isinstance(e, UncutLoop):
+            return [driver.rec(f"C19/BTP=BTF/two-teams/any-team-size/unbounded-proof@gamma={gamma_mode}", "note", "explorer", 0, kind="note", fn="BradleyTerryPart.rate",
+                               shape="n=2,any-team-size", note=f"not attempted: {e}")]
+        raise
+
+
+def _unit_btp_btf(sizes, gamma_mode, alias, generic):
     recs = []
-    shape = f"sizes={sizes},gamma={gamma_mode}" + (f",same object twice ({alias})" if alias else "")
+    shape = (f"sizes={sizes}" if not generic else "n=2,any-team-size") + f",gamma={gamma_mode}" + (f",same object twice ({alias})" if alias else "")
     ctx = Ctx("U")
 
     def run(ctx):
         res = {}
         for m in ("BradleyTerryFull", "BradleyTerryPart"):
-            S = extract.Scratch(m)
+            if generic:
+                from .. import teams as T
+                S = T.scratch(m)
+            else:
+                S = extract.Scratch(m)
             game.stub_gauss_uninterpreted(S)
             kw = {}
             if gamma_mode == "custom":
@@ -87,7 +103,8 @@ def unit_btp_btf(sizes, gamma_mode, alias=None):
                 kw["gamma"] = gamma
             mod, _ = game.mk_model(ctx, S, **kw)
             for ranks in (None, [1, 1], [2, 1]):
-                res[(m, str(ranks))] = call(mod.rate, _alias(game.mk_teams(ctx, S, sizes), alias), ranks=ranks)
+                ts = [T.SymTeam(ctx, S.rating_cls, i) for i in range(2)] if generic else _alias(game.mk_teams(ctx, S, sizes), alias)
+                res[(m, str(ranks))] = call(mod.rate, ts, ranks=ranks)
         for ranks in (None, [1, 1], [2, 1]):
             rp = {"kind": "c19_btp", "sizes": list(sizes), "ranks": ranks, "gamma": gamma_mode, "alias": alias}
             ctx.oblige(f"C19/BTP=BTF/two-teams[ranks={ranks}]@{shape}", game.compare_outcomes(res[("BradleyTerryFull", str(ranks))], res[("BradleyTerryPart", str(ranks))]),
@@ -293,6 +310,8 @@ def units(tier):
     us.append(("unit_btp_btf", ((2, 2), "default", "across")))
     us.append(("unit_btp_btf", ((2, 1), "default", "within")))
     us.append(("unit_btp_btf", ((1, 1), "default", "across")))
+    us.append(("unit_btp_btf", ((1, 1), "default", None, True)))
+    us.append(("unit_btp_btf", ((1, 1), "custom", None, True)))
     for op in ("rate",) + PREDICTS:
         us.append(("unit_validation", (op, "teams")))
     us.append(("unit_validation", ("rate", "vectors2")))
